@@ -505,6 +505,15 @@ func (p *printer) printIdentifierUTF16(name []uint16) {
 	}
 }
 
+// Numbers that "printNumber" prints as an expression instead of as a numeric
+// literal ("-1", and "1 / 0" or "0 / 0" when minifying or inside "with") can
+// only be used as a property key inside brackets
+func (p *printer) numericKeyMustBeComputed(value float64) bool {
+	return math.Signbit(value) ||
+		(value == positiveInfinity && (p.options.MinifySyntax || p.withNesting != 0)) ||
+		(value != value && p.withNesting != 0)
+}
+
 func (p *printer) printNumber(value float64, level js_ast.L) {
 	absValue := math.Abs(value)
 
@@ -691,7 +700,11 @@ func (p *printer) printBinding(binding js_ast.Binding) {
 					p.print("...")
 					p.printExprCommentsAtLoc(property.Value.Loc)
 				} else {
-					if property.IsComputed {
+					isComputed := property.IsComputed
+					if key, ok := property.Key.Data.(*js_ast.ENumber); ok && p.numericKeyMustBeComputed(key.Value) {
+						isComputed = true
+					}
+					if isComputed {
 						p.addSourceMapping(property.Loc)
 						isMultiLine := p.willPrintExprCommentsAtLoc(property.Key.Loc) || p.willPrintExprCommentsAtLoc(property.CloseBracketLoc)
 						p.print("[")
@@ -1193,7 +1206,7 @@ func (p *printer) printProperty(property js_ast.Property) {
 	// Automatically print numbers that would cause a syntax error as computed properties
 	if !isComputed {
 		if key, ok := property.Key.Data.(*js_ast.ENumber); ok {
-			if math.Signbit(key.Value) || (key.Value == positiveInfinity && p.options.MinifySyntax) {
+			if p.numericKeyMustBeComputed(key.Value) {
 				// "{ -1: 0 }" must be printed as "{ [-1]: 0 }"
 				// "{ 1/0: 0 }" must be printed as "{ [1/0]: 0 }"
 				isComputed = true
